@@ -54,6 +54,7 @@ fn one(i: usize, seed: u64, thorough: bool) -> Out {
     let ex = exec_mpc(case);
     let mut sig = None;
     let mut ok = true;
+    let env = ex.outcomes.iter().any(crate::props::env_failure);
     if ex.end == RunEnd::Stuck {
         ok = false;
         sig = Some(format!("deadlock: no runnable task and no deliverable message with capacity {:?}", cap));
@@ -81,7 +82,8 @@ fn one(i: usize, seed: u64, thorough: bool) -> Out {
         "outcomes": ex.outcomes.iter().map(outcome_str).collect::<Vec<_>>(), "end": format!("{:?}", ex.end),
         "max_outstanding_sends_per_peer": ex.net.max_out_send, "max_outstanding_recvs_per_peer": ex.net.max_out_recv,
         "outstanding_violation": ex.net.outstanding_violation});
-    Out { key, end: ex.end, ok, sig, sample, sched_hash: ex.sched_hash, ilv_hash: ex.ilv_hash, steps: ex.steps, max_out: (ex.net.max_out_send, ex.net.max_out_recv) }
+    let end = if env { RunEnd::StepLimit } else { ex.end };
+    Out { key, end, ok: ok || env, sig, sample, sched_hash: ex.sched_hash, ilv_hash: ex.ilv_hash, steps: ex.steps, max_out: (ex.net.max_out_send, ex.net.max_out_recv) }
 }
 
 fn sched_name(s: &SchedKind) -> &'static str {
@@ -111,7 +113,7 @@ pub fn run(tier: &str, seed: u64) -> i32 {
         rep.evaluations += 1;
         match &o.end {
             RunEnd::HarnessError(e) => { rep.harness_error(e.clone()); continue; }
-            RunEnd::StepLimit => { rep.inconclusive("step limit"); continue; }
+            RunEnd::StepLimit => { rep.inconclusive("step limit or temp-file I/O error of the environment"); continue; }
             _ => {}
         }
         scheds.insert(o.sched_hash);
